@@ -14,6 +14,9 @@ MAP = {
  'pbspro-nodefile-smt-twice': 'PBSPro node file fallback', 'worker-class-alias': 'worker_class alias',
  'pythontask-default-kwargs': 'PythonTask without kwargs', 'env-rebind-leaks-process-env': 'restore os.environ in place',
  'process-death-no-result': 'report a result when a raptor task process',
+ 'tout-staging-error-records-exception': 'tmgr output staging records the exception', 'roundrobin-failure-records-exception': 'round robin tmgr scheduler records',
+ 'early-bound-error-fails-one-task': 'binding one early-bound task',
+ 'quote-task-env-values': 'quote task environment values', 'quote-stdout-stderr-names': 'quote stdout/stderr file names', 'control-sub-address': 'RP_CONTROL_SUB_ADDRESS',
 }
 def find(words):
     hits = [l for l in log if words in l]
